@@ -1346,18 +1346,18 @@ func (msg *BGPOpen) DecodeFromBytes(data []byte, options ...*MarshallingOption) 
 	msg.OptParamLen = data[9]
 	data = data[10:]
 	if len(data) < int(msg.OptParamLen) {
-		return NewMessageError(BGP_ERROR_MESSAGE_HEADER_ERROR, BGP_ERROR_SUB_BAD_MESSAGE_LENGTH, nil, "Not all BGP Open message bytes available")
+		return NewMessageError(BGP_ERROR_OPEN_MESSAGE_ERROR, 0, nil, "Optional Parameters Length runs past the message")
 	}
 
 	msg.OptParams = []OptionParameterInterface{}
 	for rest := msg.OptParamLen; rest > 0; {
 		if rest < 2 {
-			return NewMessageError(BGP_ERROR_MESSAGE_HEADER_ERROR, BGP_ERROR_SUB_BAD_MESSAGE_LENGTH, nil, "Malformed BGP Open message")
+			return NewMessageError(BGP_ERROR_OPEN_MESSAGE_ERROR, 0, nil, "Malformed BGP Open message")
 		}
 		paramtype := data[0]
 		paramlen := data[1]
 		if paramlen >= 254 || rest < paramlen+2 {
-			return NewMessageError(BGP_ERROR_MESSAGE_HEADER_ERROR, BGP_ERROR_SUB_BAD_MESSAGE_LENGTH, nil, "Malformed BGP Open message")
+			return NewMessageError(BGP_ERROR_OPEN_MESSAGE_ERROR, 0, nil, "Malformed BGP Open message")
 		}
 		rest -= paramlen + 2
 
